@@ -4,7 +4,7 @@ import runner_props
 PROP = "C05"
 LEAN_MODULES = ["PamsProps.C05"]
 NAMESPACES = ["Pams.C05"]
-DRIVERS = ["Runner"]
+DRIVERS = ["Runner", "Pure"]
 TRUSTED = [
     "scheduler model treats markets, agents, user events and random draws as oracles (tape recorded from the real run through public extension points: simulator_class, registered agent/market/event classes, prng subclass, Logger subclass)",
     "user-written agents/events are assumed not to reach into private state of sessions/markets (the built-in TradingHaltRule, which does, is modelled: its flag switches are part of the tape)",
@@ -14,7 +14,51 @@ ASSUMPTIONS = ["CPython semantics of list iteration / exceptions", "recording su
 
 
 def run(ctx, model_available=True):
-    return runner_props.run_runner_property(ctx, PROP, model_available=model_available)
+    """scheduler trace (ledger once per round, before the callbacks) + the ledger arithmetic itself:
+    the Lean fold `Ledger.applyFills` at Float over the reported fills must reproduce every agent's
+    final cash bit for bit and every share position exactly"""
+    from common import LeanDriver, bits2f, fbits
+    lines, expects = [], []
+
+    def per_run(run, cfg, seed):
+        if run.sim is None or not hasattr(run, "initial"):
+            return
+        agents = run.sim.agents
+        mk = [m.market_id for m in run.sim.markets]
+        if [a.agent_id for a in agents] != list(range(len(agents))) or mk != list(range(len(mk))):
+            return
+        fills = []
+        for ev in run.rec.log:
+            if ev[0] == "ledger":
+                fills += ev[2]
+        t = ["ledger", str(len(agents)), str(len(mk))]
+        for a in agents:
+            c, sh = run.initial[a.agent_id]
+            t.append(fbits(c))
+            t += [str(sh.get(m, 0)) for m in mk]
+        t.append(str(len(fills)))
+        for l in fills:
+            t += [str(l.buy_agent_id), str(l.sell_agent_id), str(l.market_id), fbits(l.price), str(l.volume)]
+        lines.append(" ".join(t))
+        expects.append(([(a.cash_amount, [a.asset_volumes.get(m, 0) for m in mk]) for a in agents], {"config": cfg, "seed": seed, "fills": len(fills)}))
+    res = runner_props.run_runner_property(ctx, PROP, model_available=model_available, per_run=per_run)
+    if model_available and lines:
+        out, err, dt = LeanDriver("Pure").run(lines)
+        if out is None:
+            res["diffs"].append({"channel": "driver", "detail": err[-1500:]})
+        else:
+            n = 0
+            for o, (exp, inp) in zip(out, expects):
+                t = o.split()[1:]
+                per = 1 + len(exp[0][1])
+                model = [(bits2f(t[i * per]), [int(x) for x in t[i * per + 1:(i + 1) * per]]) for i in range(len(exp))]
+                n += 1
+                if model != exp:
+                    bad = [i for i, (a, b) in enumerate(zip(model, exp)) if a != b]
+                    res["diffs"].append({"channel": "ledger.fold", "agents_differing": bad[:5], "model": [model[i] for i in bad[:3]],
+                                         "impl": [exp[i] for i in bad[:3]], "input": inp})
+            res["comparisons"]["ledger_folds_compared_bitwise"] = n
+    return res
 
 
 def search(ctx, res):
